@@ -177,3 +177,37 @@ func vhC04(maxCtrlSec, maxRouteSec int) {
 
 func vh_C04_inheritance_Q() { vhC04(1, 2) }
 func vh_C04_inheritance_T() { vhC04(2, 2) }
+
+// C14: malformed @Security properties are reported as errors, never as a crash
+func vh_C14_security_props_Q() {
+	var scopes any
+	switch symxChoice("scopes.shape", 6) {
+	case 0:
+		scopes = []any{"r"}
+	case 1:
+		scopes = []any{nil}
+	case 2:
+		scopes = []any{float64(1)}
+	case 3:
+		scopes = "r"
+	case 4:
+		scopes = nil
+	default:
+		scopes = []any{"r", nil}
+	}
+	attrs := []annotations.Attribute{
+		{Name: annotations.GleeceAnnotationMethod, Value: "GET"}, {Name: annotations.GleeceAnnotationRoute, Value: "/r"},
+		{Name: annotations.GleeceAnnotationSecurity, Value: "s0", Properties: map[string]any{"scopes": scopes}}}
+	h := annotations.NewAnnotationHolderFromData(attrs, nil)
+	ctrlH := annotations.NewAnnotationHolderFromData([]annotations.Attribute{{Name: annotations.GleeceAnnotationTag, Value: "T"}}, nil)
+	ctrl := metadata.ControllerMeta{
+		Struct:    metadata.StructMeta{SymNodeMeta: metadata.SymNodeMeta{Name: "Ctl", Annotations: &ctrlH}},
+		Receivers: []metadata.ReceiverMeta{{SymNodeMeta: metadata.SymNodeMeta{Name: "Op", Annotations: &h}}},
+	}
+	_, err := ctrl.Reduce(metadata.ReductionContext{GleeceConfig: &definitions.GleeceConfig{}})
+	if err != nil {
+		symxCover("C14.security-props.error-returned")
+	} else {
+		symxCover("C14.security-props.accepted")
+	}
+}
